@@ -43,12 +43,16 @@ Arith(dst, op, s1, s2) ==
                   [] op = "mul" -> Mul(ar[s1], ar[s2])
        IN  Into(dst, v, "arith", <<dst, op, s1, s2>>)
 
+NeutralOps == {"zero_plus", "plus_zero", "one_times", "times_one", "div_one", "minus_zero", "pow_one", "sum_list"}
 \* z = op(x [, dims])
 Unary(dst, op, s, ds) ==
     /\ Defined(s)
     /\ LET x == ar[s]
            v == CASE op = "copy"      -> x
                   [] op = "neg"       -> Neg(x)
+                  \* arithmetic with a neutral plain number (0 + x, x + 0, 1 * x, x * 1, x / 1, x - 0, x ** 1, sum([x])):
+                  \* the value of x, but - being arithmetic - a NEW array, never x itself
+                  [] op \in NeutralOps -> x
                   [] op = "full_like" -> Full(x.dims, PConst(7))
                   [] op = "cast_to"   -> CastTo(x, ds)
                   [] op = "sum_to"    -> SumTo(x, ds)
